@@ -1,6 +1,7 @@
 # C14, second sentence: every completely received message is handed to the application's callback exactly once - also the ones the
 # library consumes itself (ISO requests, address claims, ISO-TP payloads) - and ISO-TP control/data frames themselves are not.
 # Node-level family through the shared node harness / model (h_node, NODE).
+from nodesim import own_addr
 import random
 from nodegen import *
 from nodesim import parse_case, parse_result
@@ -15,7 +16,7 @@ def gen_node(seed, tier):
         mode = r.choice([2, 2, 1, 0, 4])
         src0 = 30
         line = 'NODE mode=%d ndev=%d src=%d q=40 slots=%d t0=%d' % (mode, ndev, src0, r.choice([5, 8]), r.choice([5000, 4294967000]))
-        own = [src0 + i for i in range(ndev)]
+        own = [own_addr(src0, i) for i in range(ndev)]
         ops = []
         nmsg = r.choice([1, 5, 19, 20, 21, 22, 40, 41, 45, r.randint(1, 60)])
         for k in range(nmsg):
